@@ -271,7 +271,16 @@ func (fc *fnCtx) doCall(st *State, fr *frame, call *ssa.Call, k func(*State, Val
 	}
 	// bound-method closures: v.ranker_ etc. are handled through RankingFunction.call
 	spec, recv, args, resT := fc.calleeSpec(st, fr, call)
+	if recv != nil {
+		fc.checkObjGuard(st, fr, call, *recv)
+	}
 	if spec != nil {
+		if spec.key == "(*sync.Mutex).Lock" && recv != nil {
+			if st.ghost == nil {
+				st.ghost = map[string]string{}
+			}
+			st.ghost["lockseen:"+recv.T] = recv.T
+		}
 		fc.applySpec(st, fr, site, spec, recv, args, resT, func(st *State, res []Val) {
 			k(st, packResults(res))
 		})
